@@ -465,6 +465,34 @@ func checkC07(c *Ctx) {
 		r.Check(ok, "C07.H5", key, p.Pos(s.Instr.Pos()), fmt.Sprintf("%s: %s", describeSink(p, s), why), fmt.Sprintf("%s: text from %s (sanitisers: [%s]): %s", describeSink(p, s), t.srcList(), t.sanList(), why))
 	}
 
+	// ---- H8: no profile text lands in code position as it was written. Whatever the profile author types (a number as YAML
+	// spells it: +1.5, 5., 1_000; a name; an operator) is not Rego syntax unless the translator re-renders it: numbers through
+	// their parsed value, names through the identifier reduction or a string literal, IRIs through the expander.
+	r.Rule("C07.H8", "profile text reaches code position only re-rendered (parsed number, identifier reduction, string literal, expanded IRI)", 1)
+	ord8 := ordinal{}
+	raw8 := 0
+	for _, s := range sinks {
+		if s.Hole.Ctx != ctxCode {
+			continue
+		}
+		t := te.get(s.Operand)
+		if t == nil || !t.tainted {
+			continue
+		}
+		if t.san["fragment"] || t.san["ident"] || t.san["iri"] || t.san["json-literal"] || hasAny(t, codeFields) || errorish(s.Format) {
+			continue
+		}
+		isPkg := strings.HasPrefix(s.Format, "package ") || strings.HasPrefix(s.Format, "profile_")
+		if isPkg {
+			continue // judged by H5
+		}
+		raw8++
+		r.Bad("C07.H8", ord8.next(FuncKey(s.Fn)+"#"+shortFormat(s.Format)), p.Pos(s.Instr.Pos()), fmt.Sprintf("%s: text from %s is pasted into code as the profile wrote it (sanitisers: [%s]): a spelling YAML accepts and Rego does not (+1.5, 5., 0x10, 1_000, a word) makes the generated module fail to parse", describeSink(p, s), t.srcList(), t.sanList()))
+	}
+	if raw8 == 0 {
+		r.OK("C07.H8", "census", "", fmt.Sprintf("%d formatting sinks examined: no unrendered profile text in code position", len(sinks)))
+	}
+
 	// Go quoting is not Rego quoting: \a, \v, \x7f, \U000e0067 are legal in a Go literal and illegal in a Rego string
 	quoteUses := 0
 	for _, fn := range te.funcs {
